@@ -678,6 +678,16 @@ func (p *Parser) evaluateImports(ctx context) ([]Statement, error) {
 		}
 
 		for {
+			// Skip empty lines within an import group.
+			for multiple && p.peek().Type() == lexer.NEWLINE {
+				p.eat()
+			}
+
+			// An import group might be closed after empty lines.
+			if multiple && p.peek().Type() == lexer.CLOSING_ROUND_BRACKET {
+				p.eat()
+				break
+			}
 			imp, err := p.evaluateImport()
 
 			if err != nil {
@@ -753,7 +763,7 @@ func (p *Parser) evaluateImports(ctx context) ([]Statement, error) {
 			} else if nextTokenType == lexer.CLOSING_ROUND_BRACKET {
 				p.eat()
 				break
-			} else if slices.Contains([]lexer.TokenType{lexer.IDENTIFIER, lexer.STRING_LITERAL}, nextTokenType) {
+			} else if slices.Contains([]lexer.TokenType{lexer.IDENTIFIER, lexer.STRING_LITERAL, lexer.NEWLINE}, nextTokenType) {
 				// Nothing to do, parse next import in the next cycle.
 			} else {
 				return nil, p.expectedError(`")"`, nextToken)
@@ -1698,6 +1708,11 @@ func (p *Parser) evaluateSwitch(ctx context) (Statement, error) {
 
 	if nextToken.Type() != lexer.NEWLINE {
 		return nil, p.expectedNewlineError(nextToken)
+	}
+
+	// Skip empty lines before the first case.
+	for p.peek().Type() == lexer.NEWLINE {
+		p.eat()
 	}
 	fakeIf := If{
 		ifBranch: IfBranch{
